@@ -137,6 +137,18 @@ def run(ctx):
                         if fro(X - pinv(An)) > 1e-3 * fro(pinv(An)): viol('C13:rsp:pinv', 'converged RSP result is far from the pseudoinverse', inp, fro(X - pinv(An)))
                     if info['iterations'] != len(info['residual_norms']): viol('C13:rsp:info', 'iterations != len(residual_norms)', inp)
                     ctx.count(('rsp', m, n, seed, cs, bs), True)
+                    # the same configuration through the public dispatching entry point compute(): whatever it reports must describe the X it returns
+                    s2 = solver.RandomizedSketchProjectPseudoinverse(block_size=bs, max_iter=400, tol=1e-6, seed=seed, column_solver=cs, test_sketch_size=8)
+                    try: X2, info2 = s2.compute(An)
+                    except Exception as e: viol('C13:rsp:compute:raises', f'RSP compute() raised {e!r}', inp); continue
+                    if not cm.all_finite(X2, info2['residual_norms']): viol('C13:rsp:compute:nonfinite', 'RSP compute() returned NaN / inf', inp); continue
+                    tr2 = true_res(X2, An, n)
+                    if info2['converged']:
+                        if tr2 > 100 * 1e-6: viol('C13:rsp:compute:flag-multiple', f'compute() reports converged with true residual {tr2:.3e} > 100 tol (column_solver={cs}, block_size={bs})', inp, tr2)
+                        if fro(X2 - pinv(An)) > 1e-3 * fro(pinv(An)): viol('C13:rsp:compute:pinv', 'converged compute() result is far from the pseudoinverse', inp, fro(X2 - pinv(An)))
+                    if info2['iterations'] != len(info2['residual_norms']): viol('C13:rsp:compute:info', 'iterations != len(residual_norms)', inp)
+                    if (s2.block_size, s2.column_solver) != (bs, cs): viol('C13:rsp:compute:configuration', 'compute() changed the configuration of the solver object', inp, (s2.block_size, s2.column_solver))
+                    ctx.count(('rsp-compute', m, n, seed, cs, bs), True)
         # monitoring sketch of the same width as the iteration block (and narrower than n): the test sketch must stay independent of the iterates
         for seed in seeds:
             for cs in ('qr', 'spd'):
